@@ -21,19 +21,20 @@ import (
 	"sync/atomic"
 	"time"
 
+	piondtls "github.com/pion/dtls/v3"
+	dtlsnet "github.com/pion/dtls/v3/pkg/net"
+	coapdtls "github.com/plgd-dev/go-coap/v3/dtls"
 	"github.com/plgd-dev/go-coap/v3/message"
 	"github.com/plgd-dev/go-coap/v3/message/codes"
 	"github.com/plgd-dev/go-coap/v3/message/pool"
 	"github.com/plgd-dev/go-coap/v3/mux"
-	piondtls "github.com/pion/dtls/v3"
-	dtlsnet "github.com/pion/dtls/v3/pkg/net"
-	coapdtls "github.com/plgd-dev/go-coap/v3/dtls"
 	coapNet "github.com/plgd-dev/go-coap/v3/net"
 	"github.com/plgd-dev/go-coap/v3/options"
 	"github.com/plgd-dev/go-coap/v3/tcp"
 	tcpclient "github.com/plgd-dev/go-coap/v3/tcp/client"
 	"github.com/plgd-dev/go-coap/v3/udp"
 	udpclient "github.com/plgd-dev/go-coap/v3/udp/client"
+	"verifharness/internal/mem"
 )
 
 // firstWriteOnly lets the first datagram (the ClientHello) through and loses everything written afterwards: the
@@ -298,6 +299,64 @@ func runServerStop(transport string, k int, slow bool) (line string) {
 	}
 	return fmt.Sprintf("ret %d after %d err - ; done %d onclose %d %d ; panics %d", ret, after, done, lo, hi, panics)
 }
+
+// runDeadPeer: a stream server accepts a connection whose peer is already gone (or answers the TLS handshake with garbage):
+// the connection-signalling message written while the connection is set up fails.  The connection handed to OnNewConn
+// must still end properly: done signal completed, every on-close callback run exactly once, Stop() returns.
+func runDeadPeer() (line string) {
+	defer func() {
+		if r := recover(); r != nil {
+			line = fmt.Sprintf("panic %v", r)
+		}
+	}()
+	var cbA, cbB atomic.Int32
+	ccCh := make(chan *tcpclient.Conn, 1)
+	s := tcp.NewServer(options.WithErrors(func(error) {}),
+		options.WithOnNewConn(func(cc *tcpclient.Conn) {
+			cc.AddOnClose(func() { cbA.Add(1) })
+			cc.AddOnClose(func() { cbB.Add(1) })
+			ccCh <- cc
+		}))
+	l := mem.NewListener()
+	served := make(chan struct{})
+	go func() { _ = s.Serve(l); close(served) }()
+	a, b := net.Pipe()
+	_ = b.Close() // the peer is gone before the server has written anything
+	l.Push(&mem.AddrConn{Conn: a, Local: deadAddr("server"), Remote: deadAddr("dead-peer")})
+	var cc *tcpclient.Conn
+	select {
+	case cc = <-ccCh:
+	case <-time.After(time.Second):
+		s.Stop()
+		return "setup-failed"
+	}
+	done := 0
+	start := time.Now()
+	select {
+	case <-cc.Done():
+		done = 1
+	case <-time.After(500 * time.Millisecond):
+	}
+	after := time.Since(start).Nanoseconds()
+	s.Stop()
+	ret := 0
+	select {
+	case <-served:
+		ret = 1
+	case <-time.After(2 * time.Second):
+	}
+	if done == 0 {
+		after = -1
+		_ = cc.Close()
+	}
+	time.Sleep(10 * time.Millisecond)
+	return fmt.Sprintf("ret %d after %d err - ; done %d onclose %d %d ; panics 0", ret, after, done, cbA.Load(), cbB.Load())
+}
+
+type deadAddr string
+
+func (a deadAddr) Network() string { return "mem" }
+func (a deadAddr) String() string  { return string(a) }
 
 func runDiscover(cause string) (line string) {
 	defer func() {
